@@ -1,0 +1,174 @@
+//go:build verif
+// +build verif
+
+package redis
+
+import (
+	"strconv"
+	"sync"
+	"time"
+
+	"github.com/samaritan-proxy/samaritan/host"
+	"github.com/samaritan-proxy/samaritan/pb/config/service"
+	"github.com/samaritan-proxy/samaritan/proc"
+	"github.com/samaritan-proxy/samaritan/proc/internal/log"
+	"github.com/samaritan-proxy/samaritan/stats"
+)
+
+// This file is only compiled with -tags verif. Routing-related re-exports for
+// the verification harness under /verif; it adds no behaviour.
+
+var (
+	verifSlotOnce sync.Once
+	verifSlotU    *upstream
+)
+
+// VerifSlot returns the slot the proxy routes key by, obtained through the real
+// chooseHost on an upstream whose routing table maps slot i to address "i".
+func VerifSlot(key []byte) int {
+	verifSlotOnce.Do(func() {
+		u := &upstream{cfg: newConfig(&service.Config{})}
+		for i := range u.slots {
+			u.slots[i] = &instance{Addr: strconv.Itoa(i)}
+		}
+		verifSlotU = u
+	})
+	req := newSimpleRequest(newByteArray([]byte("set"), key, []byte("v")))
+	addr, err := verifSlotU.chooseHost(key, req)
+	if err != nil {
+		return -1
+	}
+	n, err := strconv.Atoi(addr)
+	if err != nil {
+		return -1
+	}
+	return n
+}
+
+// VerifHashtag is hashtag.
+func VerifHashtag(key []byte) []byte { return hashtag(key) }
+
+// VerifCRC16 is crc16.
+func VerifCRC16(b []byte) uint16 { return crc16(b) }
+
+// VerifInstance is an exported copy of instance.
+type VerifInstance struct {
+	ID       string
+	Addr     string
+	Slots    []int
+	Replicas []string
+}
+
+// VerifParseClusterNodes runs parseClusterNodes.
+func VerifParseClusterNodes(data string) ([]VerifInstance, error) {
+	insts, err := parseClusterNodes(data)
+	if err != nil {
+		return nil, err
+	}
+	res := make([]VerifInstance, 0, len(insts))
+	for _, inst := range insts {
+		vi := VerifInstance{ID: inst.ID, Addr: inst.Addr, Slots: inst.Slots}
+		for _, r := range inst.Replicas {
+			vi.Replicas = append(vi.Replicas, r.Addr)
+		}
+		res = append(res, vi)
+	}
+	return res, nil
+}
+
+// VerifSetSlotsRefreshTimers overrides the two slot-refresh timers and returns the old values.
+func VerifSetSlotsRefreshTimers(freq, minRate time.Duration) (time.Duration, time.Duration) {
+	of, om := slotsRefFreq, slotsRefMinRate
+	slotsRefFreq, slotsRefMinRate = freq, minRate
+	return of, om
+}
+
+// VerifUpstream wraps a real upstream that is not attached to a listener.
+type VerifUpstream struct{ u *upstream }
+
+// VerifNewUpstream creates an upstream (not serving) for the given config and hosts.
+func VerifNewUpstream(name string, cfg *service.Config, hosts []*host.Host) *VerifUpstream {
+	logger := log.New("[" + name + "]")
+	st := proc.NewUpstreamStats(stats.CreateScope("verif." + name + "."))
+	return &VerifUpstream{u: newUpstream(newConfig(cfg), hosts, logger, st)}
+}
+
+// HandleRedirection feeds an error reply text to the real handleRedirection for a
+// fresh GET request and returns that request's response (nil if none after wait).
+func (vu *VerifUpstream) HandleRedirection(text []byte, wait time.Duration) *RespValue {
+	req := newSimpleRequest(newStringArray("get", "k"))
+	vu.u.handleRedirection(req, &RespValue{Type: Error, Text: text})
+	select {
+	case <-req.done:
+		return req.Response()
+	case <-time.After(wait):
+		return nil
+	}
+}
+
+// HandleResp feeds a decoded backend reply to the real client.handleResp with the
+// upstream's redirection and cluster-down callbacks installed.
+func (vu *VerifUpstream) HandleResp(v *RespValue, wait time.Duration) *RespValue {
+	c := &client{onRedirection: vu.u.handleRedirection, onClusterDown: vu.u.handleClusterDown}
+	req := newSimpleRequest(newStringArray("get", "k"))
+	c.handleResp(req, v)
+	select {
+	case <-req.done:
+		return req.Response()
+	case <-time.After(wait):
+		return nil
+	}
+}
+
+// Close stops every backend client the upstream created.
+func (vu *VerifUpstream) Close() {
+	vu.u.resetAllClients()
+}
+
+// VerifProc wraps a real redis processor that is never started.
+type VerifProc struct{ p *redisProc }
+
+// VerifNewProc builds a redis processor (no listener started, no upstream loops).
+func VerifNewProc(name string, cfg *service.Config, hosts []*host.Host) (*VerifProc, error) {
+	st := proc.NewStats(stats.CreateScope("verif." + name + "."))
+	p, err := newRedisProc(name, cfg, hosts, st, log.New("["+name+"]"))
+	if err != nil {
+		return nil, err
+	}
+	return &VerifProc{p: p}, nil
+}
+
+// HandleRequest runs the real handleRequest on v and returns the response (nil if none after wait).
+func (vp *VerifProc) HandleRequest(v *RespValue, wait time.Duration) *RespValue {
+	req := newRawRequest(v)
+	vp.p.handleRequest(req)
+	select {
+	case <-req.done:
+		return req.Response()
+	case <-time.After(wait):
+		return nil
+	}
+}
+
+// Close stops the backend clients of the processor's upstream.
+func (vp *VerifProc) Close() { vp.p.u.resetAllClients() }
+
+// VerifClientAddr returns the backend address of a *client passed to a
+// verifpoint handler as argument ("" if arg is not a backend client).
+func VerifClientAddr(arg interface{}) string {
+	c, ok := arg.(*client)
+	if !ok || c == nil || c.conn == nil {
+		return ""
+	}
+	return c.conn.RemoteAddr().String()
+}
+
+// VerifSessionAddr returns the downstream peer address of a *session passed to
+// a verifpoint handler as argument ("" if arg is not a session).
+func VerifSessionAddr(arg interface{}) string {
+	s, ok := arg.(*session)
+	if !ok || s == nil || s.conn == nil {
+		return ""
+	}
+	return s.conn.RemoteAddr().String()
+}
